@@ -70,13 +70,11 @@ class C01(Check):
     assumptions = ['pickup sets are well founded (a finite-object solve only behind the stop): targets distinct, a target is never a source or a solve-governed gap, '
                    'finite non-zero source radii; solves are added in increasing surface order on lenses with an EPD '
                    'aperture and a marginal slope |u| >= 1e-3 in front of the surface',
-                   'set_index is generated only where the following surface is not a mirror (the medium behind a mirror is '
-                   'the medium in front of it)',
                    'the solve / image_solve clause uses the ABCD reference built from the prescription read back after '
                    'the operation']
 
     def budget(self, tier):
-        return (100, 8) if tier == 'quick' else (2500, 16)
+        return (250, 8) if tier == 'quick' else (2500, 16)
 
     def strategy(self, tier):
         edit = st.fixed_dictionaries(dict(kind=st.just('edit'), spec=GL.lens_spec(EDIT), ops=op_strategy()))
@@ -139,9 +137,8 @@ class C01(Check):
                 out.close('reads_back', float(np.ravel(o.surface_group.get_thickness(k))[0]), v, atol=1e-9 * Lsc,
                           step=step, op=name)
             elif name == 'set_index':
-                cand = [k for k in range(1, K + 1) if not m.refl[k] and not m.refl[min(k + 1, K + 1)]]
-                if not cand:
-                    continue
+                # any surface, mirrors and surfaces in front of mirrors included: exactly the medium behind surface k changes
+                cand = list(range(1, K + 1))
                 k = cand[op['s'] % len(cand)]
                 o.set_index(op['v'], k)
                 m.npost[k] = [op['v'], op['v']]
@@ -200,7 +197,7 @@ class C01(Check):
                 if attr == 'thickness' and 1 <= tgt < K:
                     interior_t = True
             elif name == 'solve':
-                if spec['ap']['type'] != 'EPD' or any(m.dx) or any(m.dy):
+                if spec['ap']['type'] != 'EPD' or any(m.dx) or any(m.dy) or self.mirror_media_differ(m):
                     continue
                 stop_idx = m.stop.index(True) if True in m.stop else 1
                 # finite object: the marginal ray is aimed at the entrance pupil, which moves with every surface up
@@ -246,7 +243,7 @@ class C01(Check):
                 if m.pickups or m.solves:
                     upd_with = True
             elif name == 'image_solve':
-                if any(m.dx) or any(m.dy):
+                if any(m.dx) or any(m.dy) or self.mirror_media_differ(m):
                     continue     # decentred systems: the paraxial model is not the centred ABCD system
                 ps = GS.parax_from_optic(o)
                 at = spec['ap']['type']
@@ -280,13 +277,18 @@ class C01(Check):
         out.nt(n_edits >= 3 and len(kinds) >= 2 and (interior_t or upd_with))
 
     @staticmethod
+    def mirror_media_differ(m):
+        """set_index at a mirror can give it different media on its two sides: no paraxial model is defined then"""
+        return any(m.refl[k] and m.npost[k] != m.npost[k - 1] for k in range(1, m.K + 1))
+
+    @staticmethod
     def resync_gap(o, m, k):
         """Gap k (between surfaces k and k+1) is governed by a solve: take its value from the library."""
         z = np.ravel(o.surface_group.positions)
         m.t[k] = float(z[k + 1] - z[k])
 
     def check_solves(self, o, m, spec, out, step, opname, Lsc, only=None):
-        if not m.solves or any(m.dx) or any(m.dy):
+        if not m.solves or any(m.dx) or any(m.dy) or self.mirror_media_differ(m):
             return
         ps = GS.parax_from_optic(o)
         ya, ua = ps.marginal(spec['ap']['type'], spec['ap']['value'])
@@ -320,9 +322,7 @@ class C01(Check):
             k = cand[op['s'] % len(cand)]
             phys = 50.0 * u * (1.0 if m.t[k] >= 0 else -1.0)
         elif vt == 'index':
-            cand = [k for k in range(1, K + 1) if not m.refl[k] and not m.refl[min(k + 1, K + 1)]]
-            if not cand:
-                return False
+            cand = list(range(1, K + 1))
             k = cand[op['s'] % len(cand)]
             phys = 1.2 + 1.3 * u
             kw['wavelength'] = 0.55
